@@ -4,7 +4,6 @@
 package vnet
 
 import (
-	"errors"
 	"fmt"
 	"net"
 	"time"
@@ -103,7 +102,7 @@ func (d *Dialer) Dial(network, address string) (net.Conn, error) {
 // ---- fakes
 
 // ErrClosed is returned by operations on a closed fake.
-var ErrClosed = errors.New("use of closed network connection")
+var ErrClosed = net.ErrClosed
 
 type timeoutErr struct{}
 
@@ -132,6 +131,7 @@ type IORec struct {
 	At       time.Time
 	Deadline time.Time // deadline armed at that moment
 	N        int
+	Done     bool // write: the bytes were accepted (appended to Written)
 }
 
 // FakeConn is a scripted connection (also used as custom / serial transport).
@@ -149,15 +149,24 @@ type FakeConn struct {
 
 	// write side
 	Written      [][]byte
-	WriteFailAt  int   // 1-based call that fails with WriteErr (0 = never)
+	WriteFailAt  int // 1-based call that fails with WriteErr (0 = never)
 	WriteErr     error
-	WriteFailAll bool  // every call from WriteFailAt on fails
-	WriteBlockAt int   // 1-based call that blocks until the conn is closed (0 = never)
-	WriteCalls   int
-	InWrite      int   // writers currently blocked inside Write
+	WriteFailAll bool // every call from WriteFailAt on fails
+	WriteBlockAt int  // 1-based call that blocks until the conn is closed (0 = never)
+	// WriteStallAt: 1-based call that stalls for WriteStallFor of virtual time and then completes
+	// (a device that drains: the stall is not interrupted by Close or a deadline; the bytes
+	// leave the caller's buffer when the device accepts them, i.e. at completion)
+	WriteStallAt  int
+	WriteStallFor time.Duration
+	WriteCalls    int
+	InWrite       int // writers currently blocked inside Write
 
 	CloseCalls int
 	closed     bool
+	// CloseDelay: Close unblocks pending I/O at once but takes this long (virtual time) to
+	// return (a device that drains); CloseReturned counts the calls that have returned
+	CloseDelay    time.Duration
+	CloseReturned int
 	// Handed is set when the connection was handed to the code under test (accepted, dialed,
 	// opened): from then on somebody has to close it
 	Handed bool
@@ -188,7 +197,7 @@ func (c *FakeConn) FailRead(err error) {
 func expired(dl time.Time) bool { return !dl.IsZero() && !vmc.Now().Before(dl) }
 
 func (c *FakeConn) Read(p []byte) (int, error) {
-	c.IO = append(c.IO, IORec{false, vmc.Now(), c.rdl, 0})
+	c.IO = append(c.IO, IORec{At: vmc.Now(), Deadline: c.rdl})
 	vmc.Await("read "+c.Name, func() bool {
 		return c.closed || len(c.In) > 0 || c.InErr != nil || expired(c.rdl)
 	})
@@ -219,8 +228,19 @@ func (c *FakeConn) Write(p []byte) (int, error) {
 	vmc.Step("write " + c.Name)
 	c.WriteCalls++
 	k := c.WriteCalls
-	c.IO = append(c.IO, IORec{true, vmc.Now(), c.wdl, len(p)})
+	c.IO = append(c.IO, IORec{Write: true, At: vmc.Now(), Deadline: c.wdl, N: len(p)})
+	rec := len(c.IO) - 1
 	defer vmc.EnvEvent(&c.O, 4)
+	if c.WriteStallAt != 0 && k == c.WriteStallAt && !c.closed {
+		until := vmc.Now().Add(c.WriteStallFor)
+		vmc.AddWake(until, "write-stall "+c.Name)
+		c.InWrite++
+		vmc.Await("write-stalled "+c.Name, func() bool { return !vmc.Now().Before(until) })
+		c.InWrite--
+		c.Written = append(c.Written, append([]byte{}, p...))
+		c.IO[rec].Done = true
+		return len(p), nil
+	}
 	if c.closed {
 		return 0, ErrClosed
 	}
@@ -237,6 +257,7 @@ func (c *FakeConn) Write(p []byte) (int, error) {
 		return 0, c.WriteErr
 	}
 	c.Written = append(c.Written, append([]byte{}, p...))
+	c.IO[rec].Done = true
 	return len(p), nil
 }
 
@@ -246,9 +267,17 @@ func (c *FakeConn) Close() error {
 	c.CloseCalls++
 	defer vmc.EnvEvent(&c.O, 5)
 	if c.closed {
+		c.CloseReturned++
 		return ErrClosed
 	}
 	c.closed = true
+	if c.CloseDelay > 0 {
+		vmc.EnvEvent(&c.O, 5)
+		until := vmc.Now().Add(c.CloseDelay)
+		vmc.AddWake(until, "close-delay "+c.Name)
+		vmc.Await("closing "+c.Name, func() bool { return !vmc.Now().Before(until) })
+	}
+	c.CloseReturned++
 	return nil
 }
 
@@ -302,13 +331,17 @@ func (c *FakeConn) SetWriteDeadline(t time.Time) error {
 
 // FakeListener is a scripted listener.
 type FakeListener struct {
-	Name        string
-	pending     []net.Conn
-	Accepted    int
-	CloseCalls  int
-	closed      bool
-	AcceptErr   error // returned once by the next Accept when set
-	O           vmc.EnvObj
+	Name       string
+	pending    []net.Conn
+	Accepted   int
+	CloseCalls int
+	closed     bool
+	// CloseDelay: Close unblocks pending I/O at once but takes this long (virtual time) to
+	// return (a device that drains); CloseReturned counts the calls that have returned
+	CloseDelay    time.Duration
+	CloseReturned int
+	AcceptErr     error // returned once by the next Accept when set
+	O             vmc.EnvObj
 }
 
 // Connect makes a peer connect (scenario thread; visible operation).
@@ -366,9 +399,13 @@ type FakePacketConn struct {
 	WrittenTo  []string
 	CloseCalls int
 	closed     bool
-	wdl        time.Time
-	Deadlines  []DeadlineRec
-	O          vmc.EnvObj
+	// CloseDelay: Close unblocks pending I/O at once but takes this long (virtual time) to
+	// return (a device that drains); CloseReturned counts the calls that have returned
+	CloseDelay    time.Duration
+	CloseReturned int
+	wdl           time.Time
+	Deadlines     []DeadlineRec
+	O             vmc.EnvObj
 }
 
 // Feed appends an incoming packet.
@@ -413,9 +450,17 @@ func (c *FakePacketConn) Close() error {
 	c.CloseCalls++
 	defer vmc.EnvEvent(&c.O, 4)
 	if c.closed {
+		c.CloseReturned++
 		return ErrClosed
 	}
 	c.closed = true
+	if c.CloseDelay > 0 {
+		vmc.EnvEvent(&c.O, 5)
+		until := vmc.Now().Add(c.CloseDelay)
+		vmc.AddWake(until, "close-delay "+c.Name)
+		vmc.Await("closing "+c.Name, func() bool { return !vmc.Now().Before(until) })
+	}
+	c.CloseReturned++
 	return nil
 }
 
